@@ -177,4 +177,40 @@ theorem tie_readonly_steps :
     C07.merge_subtract = ["3:true"] ∧ C07.merge_append = ["2:-", "2:-", "2:-"] ∧
     C07.filter_append = ["3:-", "2:-"] := by decide
 
+/-! ### the request-shape tables (Model/C07Shape.lean `convertNZ`) -/
+
+def sameSet (a b : List String) : Bool := a.length == b.length && a.all b.contains && b.all a.contains
+
+/-- `convertNZ` has the rows of ValidDeviceResourceCombinations over the six names it covers (with the validator the model
+    applies: none / pctOK on gpu-core and ratio / sharedOK); the other rows are the AMD / Hygon vendor names (as
+    nvidia.com/gpu), the Huawei NPU names, FPGA and RDMA; every row has a mapper; the only per-name validators are
+    ValidatePercentageResource on koordinator.sh/gpu, fpga, rdma (the order of the map literals is irrelevant) -/
+theorem tie_shape_tables :
+    sameSet C07.validCombinations
+      ["NvidiaGPU=>ValidDeviceResourceCombinationsDefaultTrue", "KoordGPU=>ValidDeviceResourceCombinationsDefaultTrue",
+       "GPUMemory=>ValidDeviceResourceCombinationsGPUPercentage", "GPUMemoryRatio=>ValidDeviceResourceCombinationsGPUPercentage",
+       "GPUCore|GPUMemory=>ValidDeviceResourceCombinationsGPUPercentage",
+       "GPUCore|GPUMemoryRatio=>ValidDeviceResourceCombinationsGPUPercentage",
+       "GPUShared|GPUMemory=>ValidDeviceResourceCombinationsGPUShared",
+       "GPUShared|GPUMemoryRatio=>ValidDeviceResourceCombinationsGPUShared",
+       "GPUShared|GPUCore|GPUMemory=>ValidDeviceResourceCombinationsGPUShared",
+       "GPUShared|GPUCore|GPUMemoryRatio=>ValidDeviceResourceCombinationsGPUShared",
+       -- not generated / not modelled:
+       "AMDGPU=>ValidDeviceResourceCombinationsDefaultTrue", "HygonDCU=>ValidDeviceResourceCombinationsDefaultTrue",
+       "HuaweiNPUCore|GPUMemoryRatio=>ValidDeviceResourceCombinationsGPUPercentage",
+       "GPUShared|HuaweiNPUCore|HuaweiNPUCPU|GPUMemory=>ValidDeviceResourceCombinationsHuaweiNPUShared",
+       "GPUShared|HuaweiNPUCore|HuaweiNPUCPU|HuaweiNPUDVPP|GPUMemory=>ValidDeviceResourceCombinationsHuaweiNPUShared",
+       "FPGA=>ValidDeviceResourceCombinationsDefaultTrue", "RDMA=>ValidDeviceResourceCombinationsDefaultTrue"] = true ∧
+    sameSet C07.combinationMapperKeys C07.validCombinationKeys = true ∧
+    sameSet C07.resourceValidators
+      ["apiext.ResourceGPU=>ValidatePercentageResource", "apiext.ResourceFPGA=>ValidatePercentageResource",
+       "apiext.ResourceRDMA=>ValidatePercentageResource"] = true ∧
+    sameSet C07.resourceFlags
+      ["apiext.ResourceNvidiaGPU=>NvidiaGPU", "apiext.ResourceGPU=>KoordGPU", "apiext.ResourceGPUCore=>GPUCore",
+       "apiext.ResourceGPUMemory=>GPUMemory", "apiext.ResourceGPUMemoryRatio=>GPUMemoryRatio",
+       "apiext.ResourceGPUShared=>GPUShared", "apiext.ResourceAMDGPU=>AMDGPU", "apiext.ResourceHygonDCU=>HygonDCU",
+       "apiext.ResourceHuaweiNPUCore=>HuaweiNPUCore", "apiext.ResourceHuaweiNPUCPU=>HuaweiNPUCPU",
+       "apiext.ResourceHuaweiNPUDVPP=>HuaweiNPUDVPP", "apiext.ResourceFPGA=>FPGA", "apiext.ResourceRDMA=>RDMA"] = true := by
+  decide
+
 end KoordVerif.C07
